@@ -6,6 +6,9 @@ INTS = {"B": (1, False), "b": (1, True), "H": (2, False), "h": (2, True),
         "I": (4, False), "i": (4, True), "Q": (8, False), "q": (8, True)}
 
 
+FLOATS = {"e": 2, "f": 4, "d": 8}
+
+
 def items(fmt):
     """expand a struct format (without byte-order prefix) to a list of items
     ('int', size, signed) | ('pad',) | ('str', n)"""
@@ -18,6 +21,8 @@ def items(fmt):
             out.extend([("pad",)] * n)
         elif ch == "s":
             out.append(("str", n))
+        elif ch in FLOATS:
+            out.extend([("flt", FLOATS[ch], ch)] * n)     # not part of the Coq struct model: checked against Python's struct only
         else:
             raise ValueError(f"format char {ch} not modelled")
     return out
